@@ -100,3 +100,142 @@ def columns_pruning_base(B, T, rk, ck, R, C, j):
     if ck == "MR":
         return B.Sum(R, lambda i: t_at(B, T, rk, ck, i, 0, j, 0) + t_at(B, T, rk, ck, i, 0, j, 1))
     return B.Sum(R, lambda i: column_base(B, T, rk, ck, R, C, i, j))
+
+
+# =======================================================================================
+# measure-level block specs (statements of C02 / C03 / C04 / C11 / C12), over the abstract
+# cube-count interface `cc` (contracts.common.CubeCountsIface) and the SubtotalSpec of each
+# dimension.  A "blocks spec" is a 2x2 nested list of spec tensors:
+#   [0][0] base cells (R, C)        [0][1] column subtotals (R, SC)
+#   [1][0] row subtotals (SR, C)    [1][1] intersections (SR, SC)
+
+
+def blocks_from(B, env, f00, f01, f10, f11):
+    R, C, SR, SC = env.R, env.C, env.rows.S, env.cols.S
+    return [
+        [B.spec_tensor((R, C), f00), B.spec_tensor((R, SC), f01)],
+        [B.spec_tensor((SR, C), f10), B.spec_tensor((SR, SC), f11)],
+    ]
+
+
+def count_blocks(B, env, cc):
+    """C04: signed merge of counts; valid-count responses (diff_nans) give NaN differences"""
+    rows, cols, cnt, dn = env.rows, env.cols, cc.counts, cc.diff_nans
+    rd = B.rd
+
+    def f01(i, t):
+        return B.ite(B.band(dn, cols.is_diff(t)), B.NaN(), cols.signed_sum(t, lambda j: rd(cnt, i, j)))
+
+    def f10(s, j):
+        return B.ite(B.band(dn, rows.is_diff(s)), B.NaN(), rows.signed_sum(s, lambda i: rd(cnt, i, j)))
+
+    def f11(s, t):
+        nan = B.bor(
+            B.band(rows.is_diff(s), cols.is_diff(t)),
+            B.band(dn, B.bor(rows.is_diff(s), cols.is_diff(t))),
+        )
+        return B.ite(
+            nan, B.NaN(), cols.signed_sum(t, lambda j: rows.signed_sum(s, lambda i: rd(cnt, i, j)))
+        )
+
+    return blocks_from(B, env, lambda i, j: rd(cnt, i, j), f01, f10, f11)
+
+
+def row_base_blocks(B, env, cc):
+    """C02/C04: a row subtotal merges row categories so its row base is the sum of theirs
+    (NaN for a difference: own direction); a column subtotal leaves the row's base alone."""
+    rows, rb = env.rows, cc.row_bases
+    rd = B.rd
+
+    def f10(s, j):
+        return B.ite(rows.is_diff(s), B.NaN(), rows.pos_sum(s, lambda i: rd(rb, i, j)))
+
+    def f11(s, t):
+        return B.ite(rows.is_diff(s), B.NaN(), rows.pos_sum(s, lambda i: rd(cc.rows_base, i)))
+
+    return blocks_from(
+        B, env, lambda i, j: rd(rb, i, j), lambda i, t: rd(cc.rows_base, i), f10, f11
+    )
+
+
+def column_base_blocks(B, env, cc):
+    cols, cb = env.cols, cc.column_bases
+    rd = B.rd
+
+    def f01(i, t):
+        return B.ite(cols.is_diff(t), B.NaN(), cols.pos_sum(t, lambda j: rd(cb, i, j)))
+
+    def f11(s, t):
+        return B.ite(cols.is_diff(t), B.NaN(), cols.pos_sum(t, lambda j: rd(cc.columns_base, j)))
+
+    return blocks_from(
+        B, env, lambda i, j: rd(cb, i, j), f01, lambda s, j: rd(cc.columns_base, j), f11
+    )
+
+
+def table_base_blocks(B, env, cc):
+    """merging categories never changes who is eligible for the table proportion"""
+    tb = cc.table_bases
+    rd = B.rd
+    return blocks_from(
+        B, env,
+        lambda i, j: rd(tb, i, j),
+        lambda i, t: rd(cc.rows_table_base, i),
+        lambda s, j: rd(cc.columns_table_base, j),
+        lambda s, t: cc.table_base,
+    )
+
+
+def quotient_blocks(B, env, num, den):
+    def q(a, b):
+        return lambda x, y: B.rd(num[a][b], x, y) / B.rd(den[a][b], x, y)
+
+    return blocks_from(B, env, q(0, 0), q(0, 1), q(1, 0), q(1, 1))
+
+
+def wave_multi(st, s):
+    """C04: a categorical-date difference 'with several terms on either side'"""
+    B = st.B
+    return B.band(st.is_diff(s), B.bor(st.n_sub(s) > 1, st.n_add(s) > 1))
+
+
+def proportion_blocks(B, env, cc, direction):
+    """C03 + the categorical-date wave-difference rule of C04.
+    direction: 'row' | 'column' | 'table'."""
+    cnt_b = count_blocks(B, env, cc)
+    base_b = {"row": row_base_blocks, "column": column_base_blocks, "table": table_base_blocks}[
+        direction
+    ](B, env, cc)
+    q = quotient_blocks(B, env, cnt_b, base_b)
+    if direction == "table":
+        return q
+    rows, cols = env.rows, env.cols
+    base = cc.row_bases if direction == "row" else cc.column_bases
+    cnt = cc.counts
+    rd = B.rd
+    DT = env.DT
+    rows_date = env.rdim.dimension_type == DT.CAT_DATE
+    cols_date = env.cdim.dimension_type == DT.CAT_DATE
+
+    def f01(i, t):
+        default = rd(q[0][1], i, t)
+        if not cols_date:
+            return default
+        a, b = cols.add(t, 0), cols.sub(t, 0)
+        wave = rd(cnt, i, a) / rd(base, i, a) - rd(cnt, i, b) / rd(base, i, b)
+        wave = B.ite(cols.n_add(t) == 0, B.NaN(), wave)  # percentage of an empty merge: 0/0
+        return B.ite(cols.is_diff(t), B.ite(wave_multi(cols, t), B.NaN(), wave), default)
+
+    def f10(s, j):
+        default = rd(q[1][0], s, j)
+        if not rows_date:
+            return default
+        a, b = rows.add(s, 0), rows.sub(s, 0)
+        wave = rd(cnt, a, j) / rd(base, a, j) - rd(cnt, b, j) / rd(base, b, j)
+        wave = B.ite(rows.n_add(s) == 0, B.NaN(), wave)  # percentage of an empty merge: 0/0
+        return B.ite(rows.is_diff(s), B.ite(wave_multi(rows, s), B.NaN(), wave), default)
+
+    return [
+        [q[0][0], B.spec_tensor((env.R, cols.S), f01)],
+        [B.spec_tensor((rows.S, env.C), f10), q[1][1]],
+    ]
